@@ -739,7 +739,12 @@ class Abstractor:
                     c0 = s._const(u)
                     if c0 is None and nm in ZERO_AT_ZERO and s.is_zero(u):
                         c0 = 0
-                    if c0 == 0 and nm in ZERO_AT_ZERO:
+                    if nm.startswith('round') and nm[5:].isdigit():
+                        if c0 is None and s.is_zero(u):
+                            c0 = 0
+                        if c0 is not None and (c0 * 10 ** int(nm[5:])).denominator == 1:
+                            r = z3.Q(c0.numerator, c0.denominator)      # a decimal with <= n places rounds to itself
+                    if r is None and c0 == 0 and nm in ZERO_AT_ZERO:
                         r = z3.RealVal(ZERO_AT_ZERO[nm])
                     elif nm == 'sqrt' and (c0 == 1 or (c0 is None and s.is_one(u))):
                         r = z3.RealVal(1)
